@@ -110,6 +110,8 @@ def trace_of(prog, result):
     ev = [dict(ev="reset", cid=result["cid"], prog=[[tla_req(r) for r in prog.get(c, [])] for c in CONNS])]
     cum = {c: [] for c in CONNS}
     nph = len(result["phases"])
+    prog_ph = phases_of(prog)
+    pre = [[c, 0, 0, []] for c in CONNS]
     for pi, ph in enumerate(result["phases"]):
         if ph["ret"] != "ok":
             return None, ph
@@ -117,8 +119,10 @@ def trace_of(prog, result):
         for s in ph["sched"]:
             t, lbl = s.split(":", 1)
             ev.append(dict(ev="step", c=conns[int(t) - 1], lbl=lbl))
+        dout = {c: [] for c in CONNS}
         for c, ms in ph["out"]:
-            cum[c] += [model_msg(m, reqs) for m in ms]
+            dout[c] = [model_msg(m, reqs) for m in ms]
+            cum[c] += dout[c]
         post = ph["post"]
         sess = []
         for s in post["sess"]:
@@ -131,7 +135,9 @@ def trace_of(prog, result):
                 conns_v.append([c, 0, 0, []])
         ev.append(dict(ev="phase", last=(pi == nph - 1), cur=post["cur"], free=post["free"], gauge=post["gauge"], sess=sess,
                        conns=conns_v, outs=[list(cum[c]) for c in CONNS], dead=post.get("dead", []),
-                       orphans=[c["c"] for c in post["conns"] if c.get("orphan")]))
+                       orphans=[c["c"] for c in post["conns"] if c.get("orphan")],
+                       douts=[dout[c] for c in CONNS], pre=pre, reqs=[[c, r] for c, r in prog_ph[pi]]))
+        pre = sorted(conns_v)
     return ev, None
 
 
